@@ -102,7 +102,7 @@ fn eft_bounded<T: Dom>(n: usize, ma: VK, k: usize) {
 pub fn units(tier: Tier, _seed: u64) -> Vec<Unit> {
     let q = tier == Tier::Quick;
     let mut u = vec![];
-    let ns: Vec<usize> = if q { vec![1, 2, 3, 4, 5, 6, 7, 8, 9] } else { vec![1, 2, 3, 4, 5, 6, 7, 8, 9, 10, 12, 16, 24, 32, 64] };
+    let ns: Vec<usize> = if q { vec![1, 2, 3, 4, 5, 6, 7, 8, 9] } else { vec![1, 2, 3, 4, 5, 6, 7, 8, 9, 10, 12, 16, 24, 32] };
     let ss: Vec<usize> = if q { vec![2] } else { vec![1, 2, 4] };
     for &n in &ns {
         for &s in &ss {
@@ -110,8 +110,8 @@ pub fn units(tier: Tier, _seed: u64) -> Vec<Unit> {
             u.push(unit!(format!("C09/linear/Ema({n})/s={s}/m={m}"), linear_fading(vec![VK::Ema(n)], s, m, n)));
             u.push(unit!(format!("C09/linear/SuperSmoother({n})/s={s}/m={m}"), linear_fading(vec![VK::SuperSmoother(n)], s, m, n)));
             u.push(unit!(format!("C09/linear/CyberCycle({n})/s={s}/m={}", m + 8), linear_fading(vec![VK::CyberCycle(n)], s, m + 8, 1usize)));
-            if n >= 2 && n <= 32 { let mm = 8 * 2 * n; u.push(unit!(format!("C09/linear/Roofing({n},{n})/s={s}/m={mm}"), linear_fading(vec![VK::Roofing(n, n)], s, mm, 2 * n + 1))); }
-            if n >= 2 && n <= 16 {
+            if n >= 2 && n <= 16 { let mm = 8 * 2 * n; u.push(unit!(format!("C09/linear/Roofing({n},{n})/s={s}/m={mm}"), linear_fading(vec![VK::Roofing(n, n)], s, mm, 2 * n + 1))); }
+            if n >= 2 && n <= 10 {
                 u.push(unit!(format!("C09/linear/Ema({n}) over SuperSmoother({n})/s={s}/m={}", 2 * m), linear_fading(vec![VK::Ema(n), VK::SuperSmoother(n)], s, 2 * m, 2 * n)));
                 u.push(unit!(format!("C09/linear/CyberCycle({n}) over Ema({n})/s={s}/m={}", 2 * m + 8), linear_fading(vec![VK::CyberCycle(n), VK::Ema(n)], s, 2 * m + 8, n)));
             }
@@ -144,8 +144,8 @@ pub fn units(tier: Tier, _seed: u64) -> Vec<Unit> {
 pub fn meta() -> Meta {
     Meta {
         functions: vec!["Ema", "LaguerreFilter", "SuperSmoother", "RoofingFilter", "CyberCycle", "TrendFlex", "ReFlex", "LaguerreRSI", "EhlersFisherTransform — each ::{new,update,last}, two instances on streams with different prefixes and a common tail; two-level chains of the linear ones"],
-        bounds: "N in {1..9} (quick) / {1..10,12,16,24,32,64} (thorough); prefix length s=2 (quick) / {1,2,4}; horizon m = 8N common values (16N for Roofing and two-level chains, 32/(1-gamma) for LaguerreFilter, gamma in {0,.2,.5,.8} quick, plus .95 with m=400 thorough); inputs are solver variables bounded by 1; one fixed gain bound 64 for all N (checked at every step up to 16, then every 8th); TrendFlex/ReFlex: output bound on all paths for k=6, fading posed on the deviation term d destructured from the output term d/sqrt(ms), along the comparison path followed by 1 (quick) / 3 (thorough) pseudo-random sample inputs (the `ms > 0` tests are nonlinear; the verdict covers every input following that path); LaguerreRSI: CU-CD = L0-L3 destructured from CU/(CU+CD), m=5/6 with an explicit geometric bound, up to the path cap; EFT: exact halving of the difference once the windows agree",
-        outside: vec!["'unbounded length': the claim is the horizon s+m", "N > 64", "an instability slower than 2^(1/(8N)) per step", "f64 rounding"],
+        bounds: "N in {1..9} (quick) / {1..10,12,16,24,32} (thorough; Roofing to 16, two-level chains to 10); prefix length s=2 (quick) / {1,2,4}; horizon m = 8N common values (16N for Roofing and two-level chains, 32/(1-gamma) for LaguerreFilter, gamma in {0,.2,.5,.8} quick, plus .95 with m=400 thorough); inputs are solver variables bounded by 1; one fixed gain bound 64 for all N (checked at every step up to 16, then every 8th); TrendFlex/ReFlex: output bound on all paths for k=6, fading posed on the deviation term d destructured from the output term d/sqrt(ms), along the comparison path followed by 1 (quick) / 3 (thorough) pseudo-random sample inputs (the `ms > 0` tests are nonlinear; the verdict covers every input following that path); LaguerreRSI: CU-CD = L0-L3 destructured from CU/(CU+CD), m=5/6 with an explicit geometric bound, up to the path cap; EFT: exact halving of the difference once the windows agree",
+        outside: vec!["'unbounded length': the claim is the horizon s+m", "N > 32", "an instability slower than 2^(1/(8N)) per step", "f64 rounding"],
         assumptions: vec!["term destructuring: where the output term the real code built is num/sqrt(rad) or num/den, obligations are posed on those sub-terms"],
     }
 }
